@@ -1,6 +1,7 @@
 """C10 — PickAPerm returns exactly the best input rankings."""
 from common import *
 import gen
+from algos import give_a_past, random_past, seasoned
 from corankco.dataset import Dataset
 from corankco.scoringscheme import ScoringScheme
 from corankco.algorithms.pickaperm.pickaperm import PickAPerm
@@ -64,6 +65,10 @@ class Pick(Suite):
             free_ties = rng.choice([[[0.0, 1.0, 0.0, 0.0, 0.0, 0.0], [0.0, 0.0, 0.0, 0.0, 0.0, 0.0]],
                                     [[0.0, 2.0, 0.0, 0.0, 1.0, 0.5], [0.0, 0.0, 0.0, 1.0, 1.0, 0.0]]])
             cases.append({"one": rng.random() < 0.3, "s": free_ties, "D": D})
+        # datasets with a past (PickAPerm and the other readers ran, then elements were removed in place): judged on the dataset as it is
+        for _ in range(80 if tier == "quick" else 800):
+            D = gen.random_dataset(rng, 7, 5)
+            cases.append({"one": rng.random() < 0.5, "s": rng.choice([gen.UNIFYING, gen.UNIFYING, pick_scheme(rng)]), "D": D, "past": random_past(rng, D)})
         # names that contain the separators of the textual form of a ranking: two different rankings can then print alike
         # (a memo or a de-duplication keyed on str(ranking) would confuse them)
         for _ in range(120 if tier == "quick" else 1500):
@@ -104,6 +109,9 @@ class Pick(Suite):
                 D = D + [[list(b) for b in D[0]]] * rng.randint(1, 2)
             rng.shuffle(D)
             cases.append({"one": rng.random() < 0.5, "s": pick_scheme(rng), "D": D, "names": [names[i] for i in range(n)]})
+        for c in cases:
+            if rng.random() < 0.2:
+                c["seasoned"] = True      # the PickAPerm object has served before the judged call (algos.seasoned)
         return cases
 
     def run(self, case):
@@ -112,9 +120,14 @@ class Pick(Suite):
         back = (lambda v: names.index(v)) if names else (lambda v: v)
         ds = Dataset.from_raw_list([[{fwd(e) for e in b} for b in r] for r in case["D"]])
         sc = ScoringScheme(case["s"])
+        if case.get("past"):
+            give_a_past(ds, case["past"], sc)
         out = {"D": [[[back(v) for v in b] for b in r] for r in gen.observe(ds)], "complete": bool(ds.is_complete)}
         try:
-            cons = PickAPerm().compute_consensus_rankings(ds, sc, case["one"])
+            alg = PickAPerm()
+            if case.get("seasoned"):
+                seasoned(alg, case["D"], case["s"], lambda raw: Dataset.from_raw_list([[{fwd(e) for e in b} for b in r] for r in raw]))
+            cons = alg.compute_consensus_rankings(ds, sc, case["one"])
             out["cons"] = [[[back(e.value) for e in b] for b in r.buckets] for r in cons.consensus_rankings]
             out["score"] = to_units(cons.kemeny_score)
         except Exception as e:
@@ -134,6 +147,7 @@ class Pick(Suite):
     def stats(self, case, out, acc):
         k = ("complete" if out["complete"] else "incomplete") + (":refused" if "err" in out else ":ok")
         acc[k] = acc.get(k, 0) + 1
+        acc["seasoned_algorithm_object"] = acc.get("seasoned_algorithm_object", 0) + int(bool(case.get("seasoned")))
         acc["names_with_separators"] = acc.get("names_with_separators", 0) + int(bool(case.get("names")))
         if "cons" in out:
             acc["several_returned"] = acc.get("several_returned", 0) + int(len(out["cons"]) > 1)
